@@ -9,6 +9,8 @@ def main(tier, replay=None):
     fams = [
         dict(scn="c11", name="assign-tables-x-local-parts", opts=["family=tables"], bounds="0,0,0,0", total=0, deadline=900),
         dict(scn="c11", name="cdb-truncated-at-every-length", opts=["family=cdbcut"], bounds="0,0,0,0", total=0),
+        dict(scn="c11", name="qmail-pw2u-options", opts=["family=pw2u"], bounds="0,0,0,0", total=0),
+        dict(scn="c11", name="table-rebuilt-while-a-delivery-is-looked-up", opts=["family=update"], bounds="%d,0,0,0" % (1 if tier == "quick" else 2), total=2, deadline=1200),
         dict(scn="c11", name="one-failing-call", opts=["family=faults"], bounds="0,%d,0,0" % (1 if tier == "quick" else 2), total=2),
     ]
     plain_src = run_families(res, "C11", tier, fams)
@@ -17,7 +19,7 @@ def main(tier, replay=None):
                 "qmail-lspawn (spawn.c, real qmail-getpw for the password-file fallback, virtual passwd with root/ownerless/missing homes, 31- and "
                 "32-character names) receives one delivery command per local part of a 47-entry pool (keys, near misses, case flips, "
                 "extensions); at the exec of bin/qmail-local the argument vector, uid, gid, group list and the order setgroups, setgid, setuid "
-                "are compared with a reference lookup of qmail-users(5)/qmail-getpw(8); users/cdb truncated at every length and every single "
+                "are compared with a reference lookup of qmail-users(5)/qmail-getpw(8); the table generator qmail-pw2u with each of 9 option sets on a password file (root, uid 2^32, upper case, home missing / not its own): an account gets an entry iff the documented rule for that option says so; qmail-newu run again while qmail-lspawn looks a delivery up, under every interleaving within the preemption bound (the lookup sees the old or the new table, never none); users/cdb truncated at every length and every single "
                 "failing read/lseek/open/stat/fork/pipe/setgroups/setgid/setuid must defer, never bounce or change identity")
     res.assumptions = ["virtual kernel (appendix A)", "bin/qmail-local is a stand-in that exits 0 (its own behaviour is C12/C13)"]
     res.require_nonzero("evaluations", "lookups_checked", "deliveries_as_user", "deliveries_refused", "malformed_tables_refused", "deferred_on_error")
